@@ -269,13 +269,13 @@ def plan(tier):
                         for corrupt in fault_patterns(8 if job not in ("J2", "J9") else 4, 3 if job == "J3" else (1 if job in ("J8", "J9") else 2)):
                             base = {"job": job, "dialect": dialect, "greeting": greeting, "eager": eager, "corrupt": corrupt}
                             items.append(({**base, "line_points": True}, 0, None))
-                            if len(corrupt) <= 1 and job in ("J3", "J8"):
+                            if len(corrupt) <= 1 and job == "J3":
                                 items.append(({**base, "line_points": False}, 2, None))
                             if len(corrupt) <= 1 and not (eager and job != "J3"):
                                 items.append(({**base, "line_points": True}, 1, None))
                             if job == "J3" and corrupt in ((), (1,), (2,)) and not eager and dialect != "C":
-                                items.append(({**base, "line_points": False}, 3, 60000))
-                                items.append(({**base, "line_points": True}, 2, 40000))
+                                items.append(({**base, "line_points": False}, 3, 30000))
+                                items.append(({**base, "line_points": True}, 2, 25000))
     return items
 
 
